@@ -86,6 +86,13 @@ type rerunner struct {
 	// and by the last successful one (simulated time)
 	curAfter  []time.Duration
 	lastAfter []time.Duration
+	// lastCtx: the context of an invocation whose computation has been given
+	// up (superseded or failed), kept by a "straggler" that may still register
+	// a dependency with it; okCtx: the context of the current computation
+	lastCtx context.Context
+	okCtx   context.Context
+	// cancelParent cancels the context the rerunner was created with
+	cancelParent context.CancelFunc
 }
 
 type world struct {
@@ -261,19 +268,39 @@ func (w *world) compute(r *rerunner) reactive.ComputeFunc {
 			}
 			return nil, err
 		}
+		if len(out) > 0 && (r.retryAt[inv] || r.hardAt == inv || w.c.Choose(8, "parallel-straggler") == 1) {
+			// a parallel branch of this run (one of several resolvers working at
+			// the same time) registers a dependency it already has again while
+			// the run is returning - possibly with an error, so that the
+			// computation is being released at that very moment
+			in := w.insts[out[w.c.Choose(len(out), "straggler-inst")].inst]
+			hops := w.c.Choose(4, "straggler-hops")
+			w.c.Probe("parallel-branch-still-registering")
+			go func() {
+				for i := 0; i < hops; i++ {
+					simrt.Yield()
+				}
+				reactive.AddDependency(ctx, in.res, nil)
+			}()
+		}
 		if r.retryAt[inv] {
 			w.triggers++
 			w.c.Fault("compute-retry-error")
 			simrt.Logf("run end rr=%d inv=%d retry", r.j, inv)
+			r.lastCtx = ctx
 			return nil, reactive.RetrySentinelError
 		}
 		if r.hardAt == inv {
 			w.c.Fault("compute-hard-error")
 			r.hardErr = true
 			simrt.Logf("run end rr=%d inv=%d hard error", r.j, inv)
+			r.lastCtx = ctx // the computation of a failed run is released
 			return nil, errors.New("hard failure")
 		}
 		r.lastOut = out
+		// the computation this one supersedes is released: its context is what
+		// a straggler may still hold
+		r.lastCtx, r.okCtx = r.okCtx, ctx
 		r.lastAfter = r.curAfter
 		r.successes++
 		simrt.Logf("run end rr=%d inv=%d ok out=%v", r.j, inv, out)
@@ -375,7 +402,9 @@ func body(c *runner.Ctx, slow bool) {
 		spawn := c.Choose(2, "always-spawn") == 1
 		interval := []time.Duration{10 * time.Millisecond, 0, 5 * time.Second}[c.Choose(3, "min-interval")]
 		c.Describe("rerunner %d: plan=[%s] vary=%v alwaysSpawn=%v minInterval=%v retryAt=%v hardAt=%d", r.j, planString(r.plan, r.sub, map[string]bool{}), r.vary, spawn, interval, keys(r.retryAt), r.hardAt)
-		r.r = reactive.NewRerunner(ctx, w.compute(r), interval, spawn)
+		pctx, cancelParent := context.WithCancel(ctx)
+		r.cancelParent = cancelParent
+		r.r = reactive.NewRerunner(pctx, w.compute(r), interval, spawn)
 	}
 
 	// the environment: "other servers" writing data, flushes and a Stop at an arbitrary point
@@ -389,11 +418,29 @@ func body(c *runner.Ctx, slow bool) {
 		if k == stopAt {
 			r := w.rrs[stopWho]
 			desc = append(desc, fmt.Sprintf("stop(rr%d)", r.j))
+			how := c.Choose(3, "stop-how")
 			go func() {
 				w.wait(c)
 				r.stopCalled = true
-				simrt.Logf("Stop called rr=%d", r.j)
+				simrt.Logf("Stop called rr=%d how=%d", r.j, how)
 				c.Fault("stop-in-window")
+				switch how {
+				case 1:
+					// the context the rerunner was created with ends first (its
+					// connection went away), then Stop is called
+					c.Probe("parent-context-cancelled-before-stop")
+					r.cancelParent()
+					simrt.Yield()
+				case 2:
+					// two callers stop it at the same time
+					c.Probe("concurrent-second-stop")
+					go func() {
+						r.r.Stop()
+						if r.inRun > 0 {
+							c.ViolateFor("C04", "stop-returned-during-run", "rerunner %d: a second, concurrent Stop returned while an invocation is in progress", r.j)
+						}
+					}()
+				}
 				r.r.Stop()
 				r.stopped = true
 				simrt.Logf("Stop returned rr=%d", r.j)
@@ -405,6 +452,20 @@ func body(c *runner.Ctx, slow bool) {
 		mode := w.wait(c)
 		w.triggers += 2
 		slot := c.Choose(nSlots, "write-slot")
+		switch c.Choose(6, "foreign-reader") {
+		case 1:
+			// somebody outside any computation touches the datum's resource
+			// (AddDependency with a context that has no rerunner)
+			c.Probe("dependency-registered-without-rerunner")
+			reactive.AddDependency(context.Background(), w.cur[slot].res, nil)
+		case 2:
+			// a straggler of an earlier invocation registers a dependency with
+			// that invocation's context, long after the run returned
+			if rr := w.rrs[c.Choose(nR, "straggler-of")]; rr.lastCtx != nil {
+				c.Probe("dependency-registered-by-a-straggler")
+				reactive.AddDependency(rr.lastCtx, w.cur[slot].res, nil)
+			}
+		}
 		if c.Choose(8, "flush") == 1 {
 			w.rrs[c.Choose(nR, "flush-who")].r.RerunImmediately()
 			desc = append(desc, "flush")
@@ -437,6 +498,25 @@ func body(c *runner.Ctx, slow bool) {
 	simrt.Logf("quiescence check")
 	w.checkFresh(c)
 	w.checkCleanupLive(c)
+	// Nothing is going on any more. A reader outside any computation now
+	// touches a resource that a settled rerunner depends on: that must not
+	// take the resource away from it.
+	for _, r := range w.rrs {
+		if !r.live() || r.successes == 0 || len(r.lastOut) == 0 || strings.Contains(planString(r.plan, r.sub, map[string]bool{}), "after") {
+			continue // (a plan with InvalidateAfter never settles)
+		}
+		in := w.insts[r.lastOut[0].inst]
+		if in.cleaned != 0 || w.cur[in.slot] != in {
+			continue
+		}
+		c.Probe("foreign-reader-at-quiescence")
+		reactive.AddDependency(context.Background(), in.res, nil)
+		simrt.Sleep(10 * time.Second)
+		if in.cleaned != 0 {
+			c.ViolateFor("C08", "cleaned-by-a-foreign-reader", "resource instance %d (slot %d), in use by the settled rerunner %d, was cleaned up after AddDependency was called on it with a context that has no rerunner", in.id, in.slot, r.j)
+		}
+		break
+	}
 
 	// stop everything; every registered resource must be cleaned exactly once.
 	// Stop is called from helper tasks: the main task never waits unboundedly
